@@ -11,7 +11,7 @@ import json
 import re
 from typing import Any
 
-from . import concretise, core
+from . import concretise, core, spconf
 from .c08 import ALL_KINDS, gen_graphs
 from .core import Check, run_tlc
 
@@ -264,6 +264,9 @@ def run(chk: Check) -> None:
         docs = gen_graphs(chk, names, ["allOf", "allOfReq", "ref", "arr"] if names == ["P", "Q"] else kinds if names == ["A", "B"] or thorough else base_kinds, k, req=req)
         lab = "+".join(names)
         judge(chk, observe_ir(chk, docs, f"ir[{lab}]"), f"ir[{lab}]")
+        # the implementation-shaped model: same documents through SchemaParse.tla, compared call by call and field by field
+        if thorough or (k == 2 and names in (["A", "B"], ["User", "UserGroup"])):
+            spconf.conformance(chk, docs, f"{lab},<={k}")
         if (names == ["A", "B"] and k == 2) or thorough:
             # quick: a third of the family (seed picks the phase) goes through generation + import
             sub = docs if thorough else [d for i, d in enumerate(docs) if (i + chk.seed) % 3 == 0 or any(e["kind"] in ("addl", "allOfReq") for e in d["edges"]) and (i + chk.seed) % 2 == 0]
